@@ -98,7 +98,8 @@ def fingerprint(g, classes):
         "all_nodes": sorted(nm(x) for x in g.all_nodes),
         "terminals": sorted(nm(x) for x in g.terminals),
         "non_terminals": sorted(nm(x) for x in g.non_terminals),
-        "abstract_dist_to_t": sorted((nm(k), sorted((nm(a), b) for a, b in v.items())) for k, v in g.abstract_dist_to_t.items()),
+        # a defaultdict grows an "infinite" default entry on a mere read: only finite entries are grammar content
+        "abstract_dist_to_t": sorted((nm(k), sorted((nm(a), b) for a, b in v.items() if b < 1000000)) for k, v in g.abstract_dist_to_t.items() if any(b < 1000000 for b in v.values())),
         "weights": sorted((nm(k), v) for k, v in g.get_weights().items()),
         "gengy": sorted((c.__name__, sorted((k, repr(v)) for k, v in c.__dict__.get("__gengy__", {}).items())) for c in classes),
         "start": nm(g.starting_symbol),
